@@ -11,7 +11,7 @@ JAR = '/opt/veriftools/tla/tla2tools.jar:/opt/veriftools/tla/CommunityModules-de
 
 
 # constants every USim configuration needs; a config only lists what it uses
-DEFAULTS = dict(NQueues=0, NChans=0, CondSel='none')
+DEFAULTS = dict(NQueues=0, NChans=0, CondSel='none', NRes=0, MaxPools=0, ResInit=0, MaxLevel=3)
 
 
 def tla_value(v):
@@ -35,6 +35,8 @@ def write_cfg(path, spec, constants, invariants=(), view=None, constraint=None,
         constants = dict(DEFAULTS, **constants)
         lines.append('CONSTANTS')
         for k, v in constants.items():
+            if k.startswith('_'):      # harness-only parameter, not a TLA+ constant
+                continue
             lines.append('  %s = %s' % (k, tla_value(v)))
     for inv in invariants:
         lines.append('INVARIANT %s' % inv)
